@@ -17,7 +17,9 @@ STUCK_S = 240  # a single case may legitimately take this long (seconds) before 
 RULE = (
     "Hypothesis-constructed @constexpr functions (pure Python over numbers, strings and enum members: arithmetic, bit "
     "operations, comparisons, if/else, bounded for/while loops, len/ord/indexing/concatenation of strings, HASH(..), "
-    "default and keyword arguments, one constexpr calling another, a library-module constexpr called qualified) x "
+    "default and keyword arguments, one constexpr calling another, a library-module constexpr called qualified, main file "
+    "and library defining constexpr functions of the same names, a twin program compiled next in the same process that "
+    "differs only in a helper's body) x "
     "argument expressions (ints, floats, negative numbers, strings with blanks/quotes/backslashes/non-ASCII, enum "
     "members, nested arithmetic, keyword form) x call positions (main code, inside inlined and non-inlined functions, "
     "nested in a larger expression, argument of a user call, if test, loop body); oracle: the function text is executed "
@@ -151,7 +153,8 @@ def call_text(draw, info, prefix=""):
 def cases(draw):
     nf = draw(st.integers(1, 3))
     funcs, infos = [], []
-    in_lib = draw(st.integers(0, 3)) == 0
+    where = draw(st.sampled_from(["main", "main", "main", "lib", "both"]))
+    in_lib = where == "lib"
     for i in range(nf):
         src, info = draw(function_def(f"cx{i}", infos, in_lib))
         # a plain call usable from later constexpr bodies
@@ -159,18 +162,34 @@ def cases(draw):
         info["call_int"] = ct
         funcs.append(src)
         infos.append(info)
+    lib_funcs, lib_infos = [], []
+    if where == "both":
+        # the library defines constexpr functions with the SAME names as the main file (other bodies, other
+        # signatures): a bare call means the main file's function, a qualified call the library's
+        for i in range(nf):
+            src, info = draw(function_def(f"cx{i}", lib_infos, True))
+            info["call_int"] = draw(call_text(info))[0]
+            lib_funcs.append(src)
+            lib_infos.append(info)
     calls = []
     for _ in range(draw(st.integers(1, 5))):
-        info = infos[draw(st.integers(0, len(infos) - 1))]
-        ct, nd = draw(call_text(info, "cl." if in_lib else ""))
+        use_lib = in_lib or (where == "both" and draw(st.booleans()))
+        pool = lib_infos if (where == "both" and use_lib) else infos
+        info = pool[draw(st.integers(0, len(pool) - 1))]
+        ct, nd = draw(call_text(info, "cl." if use_lib else ""))
         pos = draw(st.integers(0, 6))
-        if in_lib and pos in (2, 3, 4):
-            # a library function called from inside a function of the main file is rejected by the
-            # transpiler ("Calling undefined function f.lib.g"): documented limitation, not generated
-            pos = [0, 1, 5][pos - 2]
-        calls.append({"text": ct, "func": info["name"], "nondefault": nd, "pos": pos})
-    return {"funcs": funcs, "infos": [{k: v for k, v in i.items()} for i in infos], "calls": calls, "in_lib": in_lib,
+        calls.append({"text": ct, "func": info["name"], "nondefault": nd, "pos": pos, "lib": use_lib})
+    case = {"funcs": funcs, "infos": [{k: v for k, v in i.items()} for i in infos], "calls": calls, "in_lib": in_lib,
+            "lib_funcs": lib_funcs, "lib_infos": [{k: v for k, v in i.items()} for i in lib_infos],
             "opts": draw(st.sampled_from([{}, {"inline_functions": False}, {"compact": True, "remove_labels": True}]))}
+    if nf >= 2 and where == "main" and draw(st.booleans()):
+        # a second program, compiled right afterwards in the same process: identical except for the body of the
+        # first function, which later functions may call (a result remembered per caller text would be stale)
+        lines = funcs[0].rstrip("\n").split("\n")
+        if lines[-1].startswith("    return "):
+            lines[-1] = "    return (" + lines[-1][len("    return "):] + ") + 1000"
+            case["twin_first_function"] = "\n".join(lines) + "\n"
+    return case
 
 
 def render(case, literal_values=None):
@@ -183,6 +202,9 @@ def render(case, literal_values=None):
             L.append("from library import cl")
             lib = HDR + defs
         else:
+            if case.get("lib_funcs"):
+                L.append("from library import cl")
+                lib = HDR + "".join("@constexpr\n" + f + "\n" for f in case["lib_funcs"])
             L.append(defs.rstrip("\n"))
     body, fn_defs, marker = [], [], 0
     for i, c in enumerate(case["calls"]):
@@ -227,10 +249,15 @@ def expected_values(case):
     ns = namespace()
     for f in case["funcs"]:
         exec(f, ns)
+    lib_ns = ns
+    if case.get("lib_funcs"):
+        lib_ns = namespace()
+        for f in case["lib_funcs"]:
+            exec(f, lib_ns)
     out = []
     for c in case["calls"]:
         text = c["text"][3:] if c["text"].startswith("cl.") else c["text"]
-        v = eval(text, ns)
+        v = eval(text, lib_ns if c["text"].startswith("cl.") else ns)
         v = json.loads(json.dumps(v))  # what the child process hands back
         out.append(v)
     return out
@@ -243,6 +270,16 @@ def nlines(code):
 def check_case(case, stats=None, K=30):
     if case.get("forbidden"):
         return check_forbidden(case, stats)
+    check_one_program(case, stats, K)
+    if case.get("twin_first_function"):
+        twin = dict(case, funcs=[case["twin_first_function"]] + list(case["funcs"][1:]))
+        twin.pop("twin_first_function")
+        check_one_program(twin, stats, K)
+        if stats is not None:
+            stats.classes["twin-program-with-changed-helper"] += 1
+
+
+def check_one_program(case, stats=None, K=30):
     opts = dict(case.get("opts") or {})
     try:
         exp = expected_values(case)
@@ -274,7 +311,7 @@ def check_case(case, stats=None, K=30):
             return
         desc = res["error"]["description"]
         m = re.findall(r"^(\w+(?:Error|Exception)):", desc, re.M)
-        why = (m[-1] if m else oracle.norm_error(desc)[:40]) + ("-in-library-constexpr" if case["in_lib"] else "")
+        why = (m[-1] if m else oracle.norm_error(desc)[:40]) + ("-in-library-constexpr" if case["in_lib"] or case.get("lib_funcs") else "")
         raise Violation("C12:valid-constexpr-program-rejected:" + why, {"sources": srcs, "error": desc[:500], "opts": opts})
     if "error" in res2:
         if stats is not None:
@@ -302,13 +339,15 @@ def check_case(case, stats=None, K=30):
                             trace=compare.jsonable(ms[0].trace[:8]), trace_literals=compare.jsonable(ms[1].trace[:8])))
     if stats is not None:
         for c, v in zip(case["calls"], exp):
-            info = next(i for i in case["infos"] if i["name"] == c["func"])
+            info = next(i for i in (case["lib_infos"] if case.get("lib_funcs") and c.get("lib") else case["infos"]) if i["name"] == c["func"])
             stats.classes["position=%d" % c["pos"]] += 1
             stats.classes["result:" + type(v).__name__] += 1
             if (info["shape"]["branch"] or info["shape"]["loop"]) and c["nondefault"]:
                 stats.nontrivial.add(sha([case["funcs"], c["text"]])[:16])
         if case["in_lib"]:
             stats.classes["library-constexpr"] += 1
+        if case.get("lib_funcs"):
+            stats.classes["same-names-in-main-and-library"] += 1
         stats.sample({"functions": case["funcs"][:1], "calls": [c["text"] for c in case["calls"]][:3], "expected": [fmt_literal(v) for v in exp][:3]}, limit=3)
 
 
